@@ -181,6 +181,8 @@ class KindInterp:
             return self._module_kind(f, e.id)
         if isinstance(e, ast.Constant):
             return e.value
+        if isinstance(e, ast.BoolOp) or (isinstance(e, ast.UnaryOp) and isinstance(e.op, ast.Not)):
+            return self._cond(e, env, f)  # a Boolean combination of has_*() tests bound to a name
         if isinstance(e, ast.Subscript) and isinstance(e.value, ast.Name) and e.value.id == "FEATURES":
             k = self._str(e.slice, env)
             if k in self.t.features:
